@@ -586,6 +586,9 @@ func Replay(scenario string, raw json.RawMessage) []*mc.Violation {
 	if scenario == "interleaved-debs" {
 		return replayMulti(scenario, raw)
 	}
+	if scenario == "object-histories" {
+		return replayHist(scenario, raw)
+	}
 	if scenario == "xz-maxdict-history" {
 		return replayKnob(scenario, raw)
 	}
